@@ -232,3 +232,32 @@ def plain_eq(a, b):
     if isinstance(a, float) and math.isnan(a):
         return math.isnan(b)
     return a == b
+
+
+def share_index_item(value, m):
+    """If an index object (container class with a seq/index<->map hook) has an
+    unset `first` attribute, point it at its first item: the same object is then
+    referenced from the container and from the attribute. Returns True if done."""
+    from yv.common import is_gen_obj
+    done = [False]
+
+    def go(v):
+        if is_gen_obj(v):
+            c = m.by[type(v).__name__]
+            if c.get('index') and hasattr(v, 'first') and v.first is None:
+                items = v.items
+                it = (items[0] if isinstance(items, list) and items else
+                      next(iter(items.values())) if isinstance(items, dict) and items else None)
+                if it is not None:
+                    v.first = it
+                    done[0] = True
+            for p in c.get('params', []):
+                go(getattr(v, p['name'], None))
+        elif isinstance(v, list):
+            for x in v:
+                go(x)
+        elif isinstance(v, dict):
+            for x in v.values():
+                go(x)
+    go(value)
+    return done[0]
